@@ -219,7 +219,9 @@ impl Dictionary for MutableDictionary {
         let normalized = word.normalized();
 
         if let Some(found) = self.word_map.get_with_chars(normalized.as_ref()) {
-            if found.canonical_spelling.as_ref() == normalized.as_ref() {
+            // Compare like with like: an entry spelt with a typographic apostrophe
+            // must still match its own (normalized) query.
+            if found.canonical_spelling.normalized().as_ref() == normalized.as_ref() {
                 return true;
             }
         }
